@@ -518,6 +518,69 @@ fn thread_body(t: usize, nthreads: usize, nops: u32, cfg: GenCfg, errs: Arc<Mute
                     }
                 }
                 // ---- mutate
+                13 | 14 if chance(1, 4) => {
+                    // through a typed handle (into_array / into_object): reaches a parsed container before
+                    // any promotion, unlike as_array_mut / as_object_mut
+                    if !bag.is_empty() {
+                        let i = draw(bag.len() as u32) as usize;
+                        if !bag[i].big && matches!(bag[i].m, J::Arr(_) | J::Obj(_)) {
+                            trace::bump(C::dom_mutations);
+                            trace::nontrivial();
+                            let Item { v, mut m, origins, big } = bag.swap_remove(i);
+                            let sub = draw(3);
+                            tr!("T{} #{} typed-handle op {}", t, i, sub);
+                            let v2 = match &mut m {
+                                J::Arr(a) => {
+                                    let mut h = libcall("into_array", || v.into_array())?.ok_or_else(|| Violation::new("mismatch/into_array", format!("{}: None on an array", what)))?;
+                                    match sub {
+                                        0 => {
+                                            libcall("Array::clear", || h.clear())?;
+                                            a.clear();
+                                        }
+                                        1 => {
+                                            libcall("Array::push", || h.push(1u64))?;
+                                            a.push(J::Num("1".into()));
+                                        }
+                                        _ => {
+                                            let got = libcall("Array::pop", || h.pop())?;
+                                            a.pop();
+                                            libcall("drop popped", move || drop(got))?;
+                                        }
+                                    }
+                                    libcall("into_value", || h.into_value())?
+                                }
+                                J::Obj(o) => {
+                                    let mut h = libcall("into_object", || v.into_object())?.ok_or_else(|| Violation::new("mismatch/into_object", format!("{}: None on an object", what)))?;
+                                    match sub {
+                                        0 => {
+                                            libcall("Object::clear", || h.clear())?;
+                                            o.clear();
+                                        }
+                                        1 => {
+                                            let key = with_world(|w| {
+                                                w.next_key += 1;
+                                                format!("t{}", w.next_key)
+                                            });
+                                            libcall("Object::insert", || h.insert(&key, false))?;
+                                            o.push((key, J::Bool(false)));
+                                        }
+                                        _ => {
+                                            if !o.is_empty() {
+                                                let k = o[0].0.clone();
+                                                let got = libcall("Object::remove", || h.remove(&k))?;
+                                                o.remove(0);
+                                                libcall("drop removed", move || drop(got))?;
+                                            }
+                                        }
+                                    }
+                                    libcall("into_value", || h.into_value())?
+                                }
+                                _ => unreachable!(),
+                            };
+                            bag.push(Item { v: v2, m, origins, big });
+                        }
+                    }
+                }
                 13 | 14 => {
                     if !bag.is_empty() {
                         let i = draw(bag.len() as u32) as usize;
